@@ -939,6 +939,47 @@ func (c *fnCtx) callEvents(call *ast.CallExpr) alts {
 					}
 				}
 			}
+			// … or the closure a glue constructor returns (verify := newVerifier(client); verify(r)):
+			// the literal runs with the constructor's parameters bound to the constructing call
+			if mk, isCall := ast.Unparen(ds.rhs).(*ast.CallExpr); isCall {
+				owner := c.fn.root()
+				if g, _ := calleeObj(owner.Info(), mk).(*types.Func); g != nil && c.e.P.isGlue(g) {
+					if gd := c.e.P.Funcs[g]; gd != nil && gd.Body != nil && !c.e.inl[gd] {
+						var lit *ast.FuncLit
+						nRet := 0
+						ast.Inspect(gd.Body, func(nd ast.Node) bool {
+							if _, isL := nd.(*ast.FuncLit); isL {
+								return false
+							}
+							if rs, ok := nd.(*ast.ReturnStmt); ok {
+								nRet++
+								if len(rs.Results) == 1 {
+									lit, _ = ast.Unparen(rs.Results[0]).(*ast.FuncLit)
+								}
+							}
+							return true
+						})
+						if nRet == 1 && lit != nil && len(gd.Body.List) == 1 {
+							if base := c.e.P.Lits[lit]; base != nil {
+								var recv ast.Expr
+								if se, ok := ast.Unparen(mk.Fun).(*ast.SelectorExpr); ok {
+									if _, isSel := owner.Info().Selections[se]; isSel {
+										recv = se.X
+									}
+								}
+								inst := deriveFunc(gd, owner, mk, recv)
+								d := *base
+								d.Outer = inst
+								d.derived = true
+								d.orig = base
+								if sub := c.inlineLitFunc(lit, &d, callee, call); sub != nil {
+									return seq(seq(a, one(ce)), sub)
+								}
+							}
+						}
+					}
+				}
+			}
 		}
 	}
 	// glue that takes function values is looked into like any other glue; the calls through its
@@ -1022,6 +1063,16 @@ func (c *fnCtx) inlineLitFunc(lit *ast.FuncLit, lf *Func, via types.Object, call
 	exit := Event{Kind: EvExit, Fn: c.fn, Depth: c.depth, Pos: lit.End(), Node: lit, Lit: lit, Via: via, ViaCall: call, Helper: true, Loop: c.inLoop(call.Pos())}
 	if c.e.inl[lf.origOrSelf()] || c.depth >= 6 {
 		return nil
+	}
+	// the literal is invoked by this very call: its parameters are the call's arguments
+	{
+		d := *lf
+		if d.orig == nil {
+			d.orig = lf
+		}
+		d.derived = true
+		d.bind = &binding{caller: c.fn, call: call}
+		lf = &d
 	}
 	c.e.inl[lf.origOrSelf()] = true
 	sub := c.e.enumerate(lf, c.depth+1)
